@@ -24,6 +24,8 @@ class _Abort(BaseException):
     """Current path is infeasible."""
 
 
+_SIMP_MEMO = {}
+_LEARN_MEMO = {}
 GLOBAL_RESETTERS = []  # callables run at the start of every explored path (environment models register here)
 EX = None  # the active explorer (None while modules are merely being imported)
 
@@ -137,7 +139,12 @@ class Explorer:
             self._capture.append(cond)
             return True
         raw = cond
-        cond = z3.simplify(cond)
+        sk = _SIMP_MEMO.get(raw.get_id())
+        if sk is None:
+            if len(_SIMP_MEMO) > 400000:
+                _SIMP_MEMO.clear()
+            sk = _SIMP_MEMO[raw.get_id()] = (z3.simplify(raw), raw)
+        cond = sk[0]
         if z3.is_true(cond):
             return True
         if z3.is_false(cond):
@@ -173,6 +180,22 @@ class Explorer:
     # -- constant propagation: characters pinned by the path condition
     def _learn(self, cond, truth):
         """Record `term == constant` facts implied by a decided branch (used to canonicalise hash arguments)."""
+        key = (cond.get_id(), truth)
+        facts = _LEARN_MEMO.get(key)
+        if facts is None:
+            tmp, self.known = self.known, {}
+            try:
+                self._learn0(cond, truth)
+                facts = (cond, list(self.known.items()))
+            finally:
+                self.known = tmp
+            if len(_LEARN_MEMO) > 400000:
+                _LEARN_MEMO.clear()
+            _LEARN_MEMO[key] = facts
+        for k, v in facts[1]:
+            self.known[k] = v
+
+    def _learn0(self, cond, truth):
         if truth:
             stack = [cond]
             while stack:
@@ -398,13 +421,60 @@ class Atom:
         return "<%s %s>" % (self.kind, z3.simplify(self.e))
 
 
+class LazyChars:
+    """Sequence of characters computed on demand (used for hex digests, of which callers usually read one digit)."""
+    __slots__ = ("n", "fn", "memo")
+
+    def __init__(self, n, fn):
+        self.n, self.fn, self.memo = n, fn, {}
+
+    def __len__(self):
+        return self.n
+
+    def _get(self, i):
+        v = self.memo.get(i)
+        if v is None:
+            v = self.memo[i] = self.fn(i)
+        return v
+
+    def __getitem__(self, i):
+        if isinstance(i, slice):
+            return [self._get(j) for j in range(*i.indices(self.n))]
+        if i < 0:
+            i += self.n
+        if not 0 <= i < self.n:
+            raise IndexError("string index out of range")
+        return self._get(i)
+
+    def __iter__(self):
+        return iter([self._get(j) for j in range(self.n)])
+
+    def __add__(self, o):
+        return list(self) + list(o)
+
+    def __radd__(self, o):
+        return list(o) + list(self)
+
+    def __mul__(self, k):
+        return list(self) * k
+
+    def index(self, x):
+        return list(self).index(x)
+
+    def __contains__(self, x):
+        return x in list(self)
+
+
 # --------------------------------------------------------------------------- SStr
+_EQ_MEMO = {}
+
+
 class SStr:
     """String of concrete length; elements are int (concrete char), BV8 (symbolic char) or Atom."""
     __slots__ = ("cs",)
 
     def __init__(self, cs):
-        self.cs = cs if isinstance(cs, list) else list(cs)
+        self.cs = cs if isinstance(cs, (list, LazyChars)) else list(cs)
 
     @staticmethod
     def of(s):
@@ -426,6 +496,8 @@ class SStr:
         return "".join(map(chr, cs))
 
     def has_atom(self):
+        if type(self.cs) is LazyChars:
+            return False
         for c in self.cs:
             if type(c) is Atom:
                 return True
@@ -436,7 +508,12 @@ class SStr:
             raise EngineError("%s on a string containing a rendered symbolic value" % what)
 
     def concrete(self):
-        return all(isinstance(c, int) for c in self.cs)
+        if type(self.cs) is LazyChars:
+            return False
+        for c in self.cs:
+            if type(c) is not int:
+                return False
+        return True
 
     def plain(self):
         return "".join(map(chr, self.cs))
@@ -506,6 +583,18 @@ class SStr:
             if self.has_atom() or o.has_atom():
                 return self._eq_atoms(o)
             return _FALSE
+        key = (tuple([c if type(c) is int else (c.get_id() if type(c) is not Atom else id(c)) for c in self.cs]),
+               tuple([c if type(c) is int else (c.get_id() if type(c) is not Atom else id(c)) for c in o.cs]))
+        r = _EQ_MEMO.get(key)
+        if r is not None:
+            return r[0]
+        r = self._eq_expr(o)
+        if len(_EQ_MEMO) > 400000:
+            _EQ_MEMO.clear()
+        _EQ_MEMO[key] = (r, self.cs, o.cs)
+        return r
+
+    def _eq_expr(self, o):
         conj = []
         for a, b in zip(self.cs, o.cs):
             ta, tb = type(a), type(b)
